@@ -135,8 +135,10 @@ class Sensor(Asset):
             self._last_sense.append(new_data)
 
         if len(self.data[self._probes[0]]) > self._data_capacity:
-            for p in self._probes:
-                self.data[p].pop(0)  # drop oldest data
+            # Trim every series (including a PeriodicSensor's 'time'
+            # series) so they stay aligned.
+            for series in self.data.values():
+                series.pop(0)  # drop oldest data
 
     def sense(self):
         '''Make Sensor take a measurement with all of its probes and
